@@ -133,7 +133,12 @@ var verifPatterns = [][]int{
 func verifCounters(k, bitsPer int) []int {
 	c := make([]int, k)
 	for i := range c {
-		c[i] = int(zv.Byte() & byte(1<<uint(bitsPer)-1))
+		if bitsPer <= 4 {
+			// 4-bit inputs keep the whole input space small enough for the truth-table fallback
+			c[i] = int(zv.Digit() & byte(1<<uint(bitsPer)-1))
+		} else {
+			c[i] = int(zv.Byte() & byte(1<<uint(bitsPer)-1))
+		}
 	}
 	return c
 }
